@@ -134,6 +134,34 @@ def utf8_correspondence(ctx):
         ctx.diag.append("extracted UTF-8 truncation model crashed: " + out2[-300:])
     label = "utf-8 truncation: text model vs Read+Validate, chars vs ScanRunes"
     ctx.compare(label, mp, ip, cp)
+    # the property itself on the implementation's observations: a truncated text that Read+Validate
+    # accept must carry the protected fields of the text it was cut from
+    try:
+        impl = open(ip).read().splitlines()
+        desc = open(os.path.join(d, "desc.txt")).read().splitlines()
+        cases = open(cp).read().splitlines()
+        orig = {}
+        for k in range(min(len(impl), len(desc))):
+            if desc[k].endswith(": original, LF") or desc[k].endswith(": original, CRLF"):
+                orig[desc[k].rsplit(": original", 1)[0]] = (impl[k], cases[k])
+        checked = bad = 0
+        for k in range(min(len(impl), len(desc))):
+            if ": truncate " in desc[k] and impl[k].startswith("A"):
+                key = desc[k].split(": truncate ", 1)[0]
+                o = orig.get(key) or orig.get(key.split(", file ", 1)[0])
+                if o is None:
+                    continue
+                checked += 1
+                if o[0] != impl[k]:
+                    bad += 1
+                    ctx.fails.append({"kind": "fail", "key": "truncate-utf8:accepted-as-different-file",
+                                      "what": "a truncated text is accepted with protected fields that differ from the original's: " + desc[k],
+                                      "input": {"mode": "utf8", "description": desc[k], "text_hex": cases[k][2:], "original_hex": o[1][2:],
+                                                "accepted": impl[k], "original": o[0]}})
+        ctx.cov["correspondence"][label]["accepted_truncations_checked_against_original"] = checked
+        ctx.cov["correspondence"][label]["accepted_as_different_file"] = bad
+    except (OSError, KeyError, IndexError):
+        pass
     try:
         dist = {}
         for line in out.splitlines():
@@ -179,6 +207,11 @@ def replay(path):
     except (OSError, ValueError):
         doc = {}
     inp = doc.get("input") or {}
+    if inp.get("mode") == "utf8":
+        print(inp.get("description"))
+        rc, out = C.sh([os.path.join(C.BIN, "c04x"), "replay", path], timeout=600)
+        print(out)
+        return 1 if rc != 0 else 0
     if inp.get("mode") == "memory":
         print("in-memory tamper accepted by every batch's Validate() and File.Validate():")
         print(inp.get("description"))
